@@ -526,11 +526,22 @@ func NewSpecSet() *SpecSet {
 }
 
 // LoadContracts reads spec files and the repository's contract files.
-func (p *Program) LoadContracts(specDir string) error {
+func (p *Program) LoadContracts(specDir string, only []string) error {
 	p.Spec = NewSpecSet()
 	specs, _ := filepath.Glob(filepath.Join(specDir, "*.spec"))
 	sort.Strings(specs)
 	for _, f := range specs {
+		if len(only) > 0 {
+			keep := false
+			for _, o := range only {
+				if strings.TrimSuffix(filepath.Base(f), ".spec") == o {
+					keep = true
+				}
+			}
+			if !keep {
+				continue
+			}
+		}
 		lines, _, err := readContractLines(f, false)
 		if err != nil {
 			return err
